@@ -35,7 +35,7 @@ PID = "C10"
 GEN = []
 
 PREAMBLE = """From Coq Require Import List Arith Bool.
-From NG Require Import V2.Term V2.TermRun.
+From NG Require Import V2.Term V2.TermRun V2.Cascade V2.CascadeRun.
 Import ListNotations.
 """
 
@@ -54,6 +54,27 @@ def _spec_const_str(expr):
         if expr[0] not in body and "{" not in body and "\\" not in body:
             return body
     return None
+
+
+def _const_bool(expr):
+    """True/False if the expression is a constant of Python's boolean fragment (no variables), else None."""
+    import ast
+
+    if isinstance(expr, bool):
+        return expr
+    if not isinstance(expr, str) or "$" in expr:
+        return None
+    try:
+        tree = ast.parse(expr.strip(), mode="eval")
+    except SyntaxError:
+        return None
+    for node in ast.walk(tree):
+        if isinstance(node, (ast.Expression, ast.BoolOp, ast.And, ast.Or, ast.UnaryOp, ast.Not)):
+            continue
+        if isinstance(node, ast.Constant) and isinstance(node.value, bool):
+            continue
+        return None
+    return bool(eval(compile(tree, "<const>", "eval"), {"__builtins__": {}}, {}))
 
 
 def load_flow(flow_config, flow_index, internal_all):
@@ -110,7 +131,12 @@ def load_flow(flow_config, flow_index, internal_all):
         elif isinstance(el, A.Label):
             out.append(("label", lab(el.name), el.name == "start_new_flow_instance"))
         elif isinstance(el, A.Goto):
-            out.append(("jump", lab(el.label), not (isinstance(el.expression, str) and el.expression.strip() == "True")))
+            cv = _const_bool(el.expression)
+            if cv is False:
+                lab(el.label)
+                out.append(("step",))               # `Goto l if <constant false>`: never taken (e.g. the exit test of `while True`)
+            else:
+                out.append(("jump", lab(el.label), cv is None))
         elif isinstance(el, A.ForkHead):
             out.append(("fork", [lab(x) for x in el.labels]))
         elif isinstance(el, A.MergeHeads):
@@ -164,6 +190,36 @@ def coq_elem(t):
     raise ValueError(k)
 
 
+def nl(xs):
+    """list nat (typed even when empty)"""
+    xs = list(xs)
+    return C.coq_list([str(x) for x in xs]) if xs else "(@nil nat)"
+
+
+def run_cases_defs(tag, defs, terms, fn, shard=300):
+    """Like C.run_cases, but every shard only gets the `Definition fl_k` lines it mentions
+    (defs: name -> definition line)."""
+    import re as _re
+    from concurrent.futures import ThreadPoolExecutor
+
+    shards = [terms[i:i + shard] for i in range(0, len(terms), shard)]
+
+    def one(ix):
+        i, sh_terms = ix
+        used = sorted(set(_re.findall(r"fl_\d+", " ".join(sh_terms))), key=lambda n: int(n[3:]))
+        pre = PREAMBLE + "\n".join(defs[n] for n in used) + "\n"
+        return C.run_cases(f"{tag}_{i}", pre, sh_terms, fn, shard=len(sh_terms) + 1)
+
+    res = []
+    with ThreadPoolExecutor(max_workers=C.NPROC) as ex:
+        outs = list(ex.map(one, list(enumerate(shards))))
+    for bools, err in outs:
+        if err:
+            return res, err
+        res += bools
+    return res, None
+
+
 def coq_elems(elems):
     return C.coq_list([coq_elem(t) for t in elems])
 
@@ -187,7 +243,10 @@ def py_exec(elems, tbl, p, stack, o):
     t = elems[p]
     k = t[0]
     if k in ("block", "waitint"):
-        return ("stop", [(p + 1, stack)])
+        res = [(p + 1, stack)]
+        if stack and stack[-1] in tbl and not (k == "block" and t[1] == "merge"):
+            res.append((tbl[stack[-1]] + 1, stack))    # failed match / lost action conflict: moved to the catch label
+        return ("stop", res)
     if k == "maybe":
         return ("cont", p + 1, stack) if o else ("stop", [(p + 1, stack)])
     if k == "jump":
@@ -448,7 +507,7 @@ class StepCounter:
 def budget_formula(total_elems, n_flows, live):
     """Step budget for ONE run_to_completion: depends only on the program size (number of
     primitive elements, number of flows) and on the number of live flow instances."""
-    return 64 + 8 * (total_elems + 4 * n_flows) * (live + 1)
+    return 32 + 2 * (total_elems + 4 * n_flows) * (live + 1)
 
 
 def _live(state, sm):
@@ -643,12 +702,20 @@ def worker_main(jobfile, outfile):
     sm = _worker_setup()
     tracer = SlideTracer(sm)
     counter = StepCounter(sm)
+    import threading
+
     cases = json.load(open(jobfile))
+    limit = float(os.environ.get("C10_CASE_TIMEOUT", "15"))
     with open(outfile, "a") as out:
         for case in cases:
             out.write(json.dumps({"begin": case["id"]}) + "\n")
             out.flush()
             t0 = time.time()
+            # watchdog: a case that does not return (e.g. slide spinning) kills the worker; the parent
+            # attributes the hang to the case that was begun (shell `timeout` stays as backstop)
+            wd = threading.Timer(limit * (4 if case.get("mode") in ("pe", "shipped") else 1), lambda: os._exit(124))
+            wd.daemon = True
+            wd.start()
             try:
                 if case.get("mode") == "pe":
                     r = run_case_pe(sm, tracer, counter, case)
@@ -663,6 +730,7 @@ def worker_main(jobfile, outfile):
 
                 r = {"id": case["id"], "error": "worker:" + type(e).__name__ + ":" + str(e)[:300],
                      "tb": traceback.format_exc()[-1500:]}
+            wd.cancel()
             r["wall"] = round(time.time() - t0, 3)
             out.write(json.dumps(r) + "\n")
             out.flush()
@@ -1142,13 +1210,13 @@ def inject_verdict(case, r):
 def _flow_defs(programs):
     """Coq definitions for distinct element lists; returns (text, name_of(json_key))."""
     names = {}
-    lines = []
+    defs = {}
     for elems in programs:
         key = json.dumps(elems)
         if key not in names:
             names[key] = f"fl_{len(names)}"
-            lines.append(f"Definition {names[key]} : list elem := {coq_elems([tuple(e) for e in elems])}.")
-    return "\n".join(lines) + "\n", names
+            defs[names[key]] = f"Definition {names[key]} : list elem := {coq_elems([tuple(e) for e in elems])}."
+    return defs, names
 
 
 def term_signature(case, r):
@@ -1199,9 +1267,10 @@ def run(tier, seed, replay=None):
         out.add_broken("coq:theories/V2/TermRun.v|CascadeRun.v", logm)
 
     quick = tier == "quick"
-    n_term = 260 if quick else 3000
-    n_inj_direct = 420 if quick else 0          # 0 = all
-    n_inj_pe = 90 if quick else 600
+    scale = float(os.environ.get("C10_SCALE", "1"))
+    n_term = int((220 if quick else 3000) * scale)
+    n_inj_direct = int(330 * scale) if quick else 0          # 0 = all
+    n_inj_pe = int((60 if quick else 600) * scale)
     features, inj_hist = {}, {}
 
     # ---- cases: corpus / replay first, F4 programs, generated
@@ -1342,7 +1411,6 @@ def run(tier, seed, replay=None):
     # ---- correspondence 1: slide differential (model inside Coq)
     all_elem_lists = list(programs.values()) + [f["elems"] for f in shipped if "elems" in f]
     defs, names = _flow_defs(all_elem_lists)
-    pre = PREAMBLE + defs
     slide_terms, slide_kept = [], []
     seen = set()
     n_nontrivial = 0
@@ -1359,26 +1427,25 @@ def run(tier, seed, replay=None):
         if len(slide_terms) >= max_slides:
             continue
         exp = "({k}, {p}, {t}, {n}, {ec}, {path}, {st})".format(
-            k=sc["kind"], p=sc["pos"], t=C.coq_list([str(x) for x in sc["targets"]]), n=sc["steps"],
-            ec=C.coq_list([str(x) for x in sc["end_catch"]]), path=C.coq_list([str(x) for x in sc["path"]]),
-            st=C.coq_list([f"({a}, {C.coq_bool(bb)})" for a, bb in sc["starts"]]))
+            k=sc["kind"], p=sc["pos"], t=nl(sc["targets"]), n=sc["steps"],
+            ec=nl(sc["end_catch"]), path=nl(sc["path"]),
+            st=C.coq_list([f"({a}, {C.coq_bool(bb)})" for a, bb in sc["starts"]]) if sc["starts"] else "(@nil (nat * bool))")
         slide_terms.append("({es}, {o}, {s}, {cs}, {e})".format(
-            es=names[json.dumps(elems)], o=C.coq_list(sc["outs"]), s=sc["start"],
-            cs=C.coq_list([str(x) for x in sc["catch"]]), e=exp))
+            es=names[json.dumps(elems)], o=C.coq_list(sc["outs"]) if sc["outs"] else "(@nil outcome)", s=sc["start"],
+            cs=nl(sc["catch"]), e=exp))
         slide_kept.append((cid, sc))
     slide_bad = []
     t1 = time.time()
     if okm and slide_terms:
-        bools, err = C.run_cases(PID + "_slide", pre, slide_terms, "check_slide", shard=400)
+        bools, err = run_cases_defs(PID + "_slide", defs, slide_terms, "check_slide", shard=300)
         if err:
             out.add_broken("correspondence:C10-slide(coqc)", err)
         else:
             slide_bad = [(cid, sc) for ok, (cid, sc) in zip(bools, slide_kept) if not ok]
         # the start configuration of every real head is the one the verifier predicts
-        st_terms = sorted({"({n}, {p}, {cs})".format(n=names[json.dumps(r_elems)], p=sc["start"],
-                                                      cs=C.coq_list([str(x) for x in sc["catch"]]))
+        st_terms = sorted({"({n}, {p}, {cs})".format(n=names[json.dumps(r_elems)], p=sc["start"], cs=nl(sc["catch"]))
                            for (_cid, sc, r_elems) in slide_cases if not sc["merging"]})
-        bools, err = C.run_cases(PID + "_start", pre, st_terms, "check_start", shard=400)
+        bools, err = run_cases_defs(PID + "_start", defs, st_terms, "check_start", shard=300)
         if err:
             out.add_broken("correspondence:C10-start(coqc)", err)
         elif not all(bools):
@@ -1416,18 +1483,17 @@ def run(tier, seed, replay=None):
             unguarded.append(name)
         if cyc is not None:
             spin_terms.append("({n}, {o}, {p}, {cs})".format(
-                n=name, o=C.coq_list(spin_oracle(elems, cyc)), p=cyc[0][0],
-                cs=C.coq_list([str(x) for x in reversed(cyc[0][1])])))
+                n=name, o=C.coq_list(spin_oracle(elems, cyc)), p=cyc[0][0], cs=nl(reversed(cyc[0][1]))))
     g_bad = []
     t1 = time.time()
     if okm and g_terms:
-        bools, err = C.run_cases(PID + "_guard", pre, g_terms, "check_guarded", shard=60)
+        bools, err = run_cases_defs(PID + "_guard", defs, g_terms, "check_guarded", shard=40)
         if err:
             out.add_broken("correspondence:C10-guardedb(coqc)", err)
         else:
             g_bad = [k for ok, k in zip(bools, g_kept) if not ok]
         if spin_terms:
-            bools, err = C.run_cases(PID + "_spin", pre, spin_terms, "check_spins", shard=60)
+            bools, err = run_cases_defs(PID + "_spin", defs, spin_terms, "check_spins", shard=60)
             if err:
                 out.add_broken("correspondence:C10-spin(coqc)", err)
             elif not all(bools):
@@ -1442,7 +1508,9 @@ def run(tier, seed, replay=None):
         out.add_broken("generator:premise", f"{len(gen_unguarded)} generated flows are not guarded (generator must satisfy the premise)")
 
     # ---- correspondence 3: the cascade bound of the model dominates the observed event counts
-    bound_stats = check_bounds(out, bound_cases, okm) if okm else {}
+    t1 = time.time()
+    bound_stats = check_bounds(out, bound_cases, defs, names) if okm else {}
+    t_bound = round(time.time() - t1, 1)
 
     out.coverage.update({
         "evaluations": len(slide_terms) + len(g_terms) + term_stats["events"] + sum(inj_hist.values()),
@@ -1464,8 +1532,8 @@ def run(tier, seed, replay=None):
         "traces_validated_against_impl": len(slide_terms),
         "correspondence_disagreements": len(slide_bad) + len(g_bad),
         "oracle_violations": sum(n for _w, _p, n in findings.values()),
-        "budget_formula": "64 + 8 * (total_primitive_elements + 4 * n_flows) * (live_instances + 1) internal events per run_to_completion",
-        "jobs_s": t_jobs, "coq_slide_s": t_slide, "coq_guard_s": t_guard,
+        "budget_formula": "32 + 2 * (total_primitive_elements + 4 * n_flows) * (live_instances + 1) internal events per run_to_completion",
+        "jobs_s": t_jobs, "coq_slide_s": t_slide, "coq_guard_s": t_guard, "coq_bound_s": t_bound, "total_s": round(time.time() - t_start, 1),
     })
     out.assumptions += [
         "expression values are replaced by an oracle (true/false/raises per executed element); theorems quantify over all oracles",
@@ -1482,8 +1550,47 @@ def run(tier, seed, replay=None):
     return C.finish(out)
 
 
-def check_bounds(out, bound_cases, okm):
-    return {}
+def check_bounds(out, bound_cases, defs, names):
+    """Correspondence 3: for the generated programs inside the class of C10_rtc_bound_partial the
+    number of internal events processed by every real run_to_completion is dominated by the
+    model's bound (evaluated inside Coq from the REAL loaded program)."""
+    terms, kept = [], []
+    seen = set()
+    for cid, r in bound_cases:
+        idx = r["flow_index"]
+        order = sorted(idx, key=lambda k: idx[k])
+        try:
+            prog = C.coq_list([names[json.dumps(r["program"][fid]["elems"])] for fid in order])
+        except KeyError:
+            continue
+        obs = [(e["live"], e["steps"]) for e in r["events"]]
+        key = (prog, tuple(obs))
+        if key in seen:
+            continue
+        seen.add(key)
+        terms.append("({p}, {o})".format(p=prog, o=C.coq_list([f"({a}, {b})" for a, b in obs])))
+        kept.append((cid, prog, obs))
+    stats = {"programs": len(terms)}
+    if not terms:
+        return stats
+    progs = sorted({k[1] for k in kept})
+    inb, err = run_cases_defs(PID + "_class", defs, progs, "in_class", shard=40)
+    if err:
+        out.add_broken("correspondence:C10-bound(coqc)", err)
+        return stats
+    in_class = {p for p, ok in zip(progs, inb) if ok}
+    stats["programs_in_model_class"] = sum(1 for k in kept if k[1] in in_class)
+    bools, err = run_cases_defs(PID + "_bound", defs, terms, "check_bound", shard=40)
+    if err:
+        out.add_broken("correspondence:C10-bound(coqc)", err)
+        return stats
+    bad = [k for ok, k in zip(bools, kept) if not ok]
+    stats["bound_violations"] = len(bad)
+    stats["max_observed_steps_in_class"] = max([b for k in kept if k[1] in in_class for _a, b in k[2]], default=0)
+    if bad:
+        cid, prog, obs = bad[0]
+        out.add_broken("correspondence:C10-bound", f"{len(bad)} programs: a real run_to_completion processed more internal events than 2*rtc_bound+2 of the model; e.g. case {cid} observations (live, steps) = {obs}")
+    return stats
 
 
 if __name__ == "__main__":
